@@ -273,3 +273,27 @@ theorem specMoveBy_reading {w w' : World} {a : Aid} {d : Pos} {ok : Bool}
 
 end World
 end Abmarl
+
+namespace Abmarl
+open World
+
+theorem setSt_back {w1 : World} {a : Aid} (x o : Nat) (ha : a < w1.st.length)
+    (ho : (w1.stOf a).orient = o) :
+    (w1.setSt a { w1.stOf a with orient := x }).setSt a
+      { (w1.setSt a { w1.stOf a with orient := x }).stOf a with orient := o } = w1 := by
+  have h1 : (w1.setSt a { w1.stOf a with orient := x }).stOf a = { w1.stOf a with orient := x } :=
+    stOf_setSt_same _ _ _ ha
+  rw [h1]
+  simp only [setSt, List.set_set]
+  have : ({ w1.stOf a with orient := o } : AgentSt) = w1.stOf a := by
+    cases hs : w1.stOf a
+    simp only [hs] at ho
+    simp [ho]
+  rw [this]
+  have hself : w1.st.set a (w1.stOf a) = w1.st := by
+    simp only [stOf, List.getD_eq_getElem?_getD, List.getElem?_eq_getElem ha, Option.getD_some]
+    exact List.set_getElem_self ha
+  rw [hself]
+
+
+end Abmarl
